@@ -1,0 +1,5 @@
+// +build !verif
+
+package rand
+
+func verifRead(b []byte) (int, error, bool) { return 0, nil, false }
